@@ -319,7 +319,16 @@ func Mutate(t *rapid.T, root **rc.M, o MutOpts) (Mutation, bool) {
 		if (x.Major != 2 && x.Major != 3) || x.Emb != nil {
 			return mut, false
 		}
-		switch rapid.IntRange(0, 4).Draw(t, "content-edit") {
+		switch rapid.IntRange(0, 5).Draw(t, "content-edit") {
+		case 5:
+			n := rapid.SampledFrom([]int{0, 1, 16, 23, 24, 31, 32, 33, 47, 48, 49, 56, 57, 64, 65, 66, 67, 96, 128, 132, 255, 256}).Draw(t, "resize-to")
+			nb := make([]byte, n)
+			copy(nb, x.Bytes)
+			for i := len(x.Bytes); i < n; i++ {
+				nb[i] = byte(i*7 + 1)
+			}
+			x.Bytes = nb
+			mut.Op = "content/resize"
 		case 0:
 			if len(x.Bytes) == 0 {
 				return mut, false
